@@ -126,6 +126,32 @@ def envprobe(wdir):
                              "failed_modules": ["Prism.Gen." + f[:-5] + " (regenerated under GOMAXPROCS=%s on %s CPUs: the kernel-checked theorems are about the default-environment data)" % (n, n) for f in diff[:6]],
                              "detail": out[-1500:]})
             break
+    # ... and on a 32-bit build (GOARCH=386: `int` is 32 bits wide) when this machine can build and run one
+    if not problems:
+        exe = os.path.join(wdir, "pv386")
+        e = goenv()
+        e["GOARCH"] = "386"
+        rc, out, dt = sh(["go", "build", "-tags", "verif", "-o", exe, "."], cwd=HARNESS, env=e, timeout=900)
+        if rc == 0:
+            d = os.path.join(wdir, "envdump_386")
+            shutil.rmtree(d, ignore_errors=True)
+            os.makedirs(d, exist_ok=True)
+            rc, out, dt = sh([exe, "dump", d], env=dict(os.environ), timeout=600)
+            cannot_run = rc != 0 and ("exec format error" in out.lower() or "cannot execute" in out.lower() or rc == 126)
+            diff = []
+            if rc == 0:
+                for f in sorted(os.listdir(gen)):
+                    if f.endswith(".lean") and f != "Access.lean":
+                        if not os.path.exists(os.path.join(d, f)) or not filecmp.cmp(os.path.join(gen, f), os.path.join(d, f), shallow=False):
+                            diff.append(f)
+            shutil.rmtree(d, ignore_errors=True)
+            if not cannot_run and (rc != 0 or diff):
+                penv = {"GOARCH": "386"}
+                problems.append({"kind": "env", "env": penv, "probe": True,
+                                 "what": ("the code's tables/constants depend on the width of int: a GOARCH=386 build of the dumper %s" %
+                                          (("regenerates different data in " + ", ".join(diff[:6])) if rc == 0 else "fails")),
+                                 "failed_modules": ["Prism.Gen." + f[:-5] + " (regenerated by a GOARCH=386 build: the kernel-checked theorems are about the amd64 data)" for f in diff[:6]],
+                                 "detail": out[-1500:]})
     return problems
 
 
@@ -425,7 +451,8 @@ def corr_directs_under(pid, tier, seed, wdir, penv, timeout):
     env["GOMEMLIMIT"] = env.get("GOMEMLIMIT", "8GiB")
     env.update(penv)
     cpus = int(penv.get("PV_CPUS", 0) or 0) or None
-    rc, out, dt = sh([PV, "corr", pid, tier, str(seed), d], env=env, timeout=timeout, cpus=cpus)
+    exe = os.path.join(wdir, "pv386") if penv.get("GOARCH") == "386" and os.path.exists(os.path.join(wdir, "pv386")) else PV
+    rc, out, dt = sh([exe, "corr", pid, tier, str(seed), d], env=env, timeout=timeout, cpus=cpus)
     directs = []
     tag = ",".join("%s=%s" % kv for kv in sorted(penv.items()))
     try:
@@ -525,7 +552,8 @@ def search(pid, kind, payload, wdir, env_extra=None):
     json.dump({"kind": kind, "payload": payload}, open(req, "w"))
     env = goenv()
     env.update(env_extra or (payload.get("env") if isinstance(payload, dict) else None) or {})
-    rc, out, dt = sh([PV, "search", pid, req], env=env, timeout=900, cpus=(int(env.get("PV_CPUS", 0) or 0) or None))
+    exe = os.path.join(wdir, "pv386") if env.get("GOARCH") == "386" and os.path.exists(os.path.join(wdir, "pv386")) else PV
+    rc, out, dt = sh([exe, "search", pid, req], env=env, timeout=900, cpus=(int(env.get("PV_CPUS", 0) or 0) or None))
     res = {"found": False, "detail": out[-4000:], "rc": rc}
     for line in out.splitlines():
         if line.startswith("WITNESS "):
@@ -576,7 +604,7 @@ def run_check(pid, tier, seed):
                                  "detail": out[-3000:]})
             if ok and P.get("envprobe"):
                 problems += envprobe(wdir)
-                steps["envprobe"] = "GOMAXPROCS 1 / 3+encode-first / 7+decode-first / 5+xyz-first: " + ("data differs" if any(p["kind"] == "env" for p in problems) else "identical data")
+                steps["envprobe"] = "GOMAXPROCS and CPUs 1 / 3+encode-first / 7+decode-first / 5+xyz-first; GOARCH=386 build: " + ("data differs" if any(p["kind"] == "env" for p in problems) else "identical data")
         targets = list(P.get("targets", [])) + ["driver"]
         tb0 = time.time()
         ok, out, failed, errors = lake_build(targets)
